@@ -375,14 +375,23 @@ def _ent(e):
 
 
 def _snap(o):
-    return "(mkSnap %s %s %s %s %s %s)" % (cbool(o["alive"][0] == 1), cbool(o["mon"][0]), cbool(o["alive"][1] == 1),
-                                           cbool(o["mon"][1]), _ent(o["tok"]), _ent(o["ts"]))
+    return "(mkSnap %s %s %s %s %s %s %s)" % (cbool(o.get("known", True)), cbool(o["alive"][0] == 1), cbool(o["mon"][0]),
+                                              cbool(o["alive"][1] == 1), cbool(o["mon"][1]), _ent(o["tok"]), _ent(o["ts"]))
+
+
+def _calc_expire(lim, unix, off):
+    """the window length the limiter asks Redis for: period, or with Align() the seconds to the next multiple of
+    period on the callers' local clock (the Coq side re-checks this against Model.calc_expire)"""
+    if not lim["align"]:
+        return lim["period"]
+    return lim["period"] - (unix + off) % lim["period"]
 
 
 def _window(lim, o):
-    """calcExpireSeconds() was sampled before and after the call; the TTL of a freshly opened window tells which."""
+    """The wall clock was sampled before and after the call; when a second boundary lies in between, the TTL of a
+    freshly opened window tells which of the two the limiter saw."""
     e = o["exp"]
-    e0, e1 = e[2], e[4]
+    e0, e1 = _calc_expire(lim, e[0], e[1]), _calc_expire(lim, e[3], e[1])
     if e0 != e1 and o["ent"][0] == 1 and o["ent"][2] == e1 * 1000:
         return e1
     return e0
@@ -404,9 +413,9 @@ def encode(case, obs):
                     cnat(op["lim"]), cnat(op["key"]), cbool(op.get("down", False)), cZ(_window(case["lims"][op["lim"]], o)),
                     cZ(o["code"]), cZ(o["err"]), _ent(o["ent"]), clist([cZ(x) for x in o["exp"]])))
             else:
-                ops.append("XPConc %s %s %s %s %s %s %s" % (
+                ops.append("XPConc %s %s %s %s %s %s %s %s" % (
                     cnat(op["lim"]), cnat(op["key"]), cnat(op["g"]), cZ(_window(case["lims"][op["lim"]], o)),
-                    clist([cZ(x) for x in o["codes"]]), cZ(o["errs"]), _ent(o["ent"])))
+                    clist([cZ(x) for x in o["codes"]]), cZ(o["errs"]), _ent(o["ent"]), clist([cZ(x) for x in o["exp"]])))
         return "CPeriod %s %s %s" % (clist(lims), cZ(case["t0"]), clist(ops))
     if "new_panic" in obs:
         return "CToken %s %s %s true []" % (cZ(case["rate"]), cZ(case["burst"]), cZ(case["t0"]))
@@ -426,7 +435,7 @@ def encode(case, obs):
     healed = obs.get("healed", True)
     # a monitor that never came back is reported as an impossible snapshot so that model_ok fails
     if not healed:
-        ops.append("XTTick (0)%Z (mkSnap false true false true (0, 0, 0)%Z (0, 0, 0)%Z)")
+        ops.append("XTTick (0)%Z (mkSnap true false true false true (0, 0, 0)%Z (0, 0, 0)%Z)")
     return "CToken %s %s %s false %s" % (cZ(case["rate"]), cZ(case["burst"]), cZ(case["t0"]), clist(ops))
 
 
